@@ -1579,6 +1579,11 @@ func waitForCacheConsistent(ctx context.Context, db *database, logger *logr.Logg
 			db.cacheMutex.RLock()
 			return
 		case <-ticker.C:
+			if !hasMonitors(db) {
+				// the monitor that was being set up did not come about
+				db.cacheMutex.RLock()
+				return
+			}
 			db.cacheMutex.RLock()
 			if isCacheConsistent(db) {
 				return
